@@ -9,7 +9,9 @@ LEAN_MODULE = "Ctrmml.Properties.C09"
 THEOREMS = ["C09_mds_shape", "C09_track_table_exact", "C09_slot_count", "C09_volume_carried", "C09_ids_injective_partial",
             "C09_ids_injective", "C09_tracks_exact", "C09_index_resolves", "C09_event_names", "C09_data_resolves", "C09_nothing_unused",
             "C09_index_fits_byte", "C09_d19_counterexample_before_fix",
-            "C09_reader_sees_operands_partial", "C09_seq_bytes", "C09_full_partial", "C09_nothing_unused_bytes", "fullPartialHyps_sound"]
+            "C09_reader_sees_operands_partial", "C09_seq_bytes", "C09_full_partial", "C09_nothing_unused_bytes", "fullPartialHyps_sound",
+            "C09_writer_run_in_frag", "C09_writer_outputs_in_frag", "C09_small_of_sizes", "C09_small_of_2GiB", "C09_full_partial2", "fullHyps_sound",
+            "ex4_construct", "ex4_hyps", "ex5_run", "ex5_construct", "ex5_hyps"]
 LEVEL = "proof"
 STREAM = "mds.bytes+conv.maps"
 CHUNK = 120
@@ -32,11 +34,17 @@ LEVEL_TEXT = ("Machine-checked over the model of the converter (writer of Model/
               "serialised file: parseFile (RIFF walk, C13) returns the container with seq and the dblk entries (ids distinct, inside the data slots), headerOf reads base/slots/channel tracks at their "
               "stream positions, decodeStream at every channel track and at streamPos of every subroutine slot returns opsOf of the emitted list, and every decoded index operand resolves via "
               "MdsResolve.resolve to the stream of the subroutine / macro track registered under the writer's key resp. to the content of THE entry holding the data-bank item (C09_full_partial). "
-              "Byte-level nothing_unused with the exceptions explicit (C09_nothing_unused_bytes).")
-LEVEL_NOTE = ("Hypothesis PlatformClean: no platform `cmd` injects a raw PAT/INS/PCM/PEG/MTAB opcode (the song names nothing for such an operand). Residual hypotheses of C09_full_partial: every "
-              "channel/subroutine event list in Frag and every stream < 64 KiB (then the exported seq consists of bytes: C09_seq_bytes), sorted track map, at least one channel track (all decided by "
-              "Spec/MdsFrag.fullPartialHyps, sound by fullPartialHyps_sound, and EVALUATED by the judge on the model's export of every accepted generated song: see the note "
-              "'C09_full_partial residual hypotheses' of each run), file < 4 GiB; macro streams resolve when non-empty. Still decided per case by checkFile on the real file only "
+              "Byte-level nothing_unused with the exceptions explicit (C09_nothing_unused_bytes). Round 4: every list the writer returns — any track, any conversion state, any budget — is in the "
+              "reader fragment Frag (okEv events, the only terminator last, loops balanced: C09_writer_run_in_frag, by an invariant tying the LP/LPF depth of the emitted list to the player's stack, "
+              "with D25's repair for drum routines), hence every channel/subroutine list of an export (C09_writer_outputs_in_frag); the 4 GiB format bound follows from a decidable bound on the input "
+              "sizes (C09_small_of_sizes, C09_small_of_2GiB); C09_full_partial2 = C09_full_partial without the fragment hypothesis and with the size bound; its construct hypothesis is met by songs with "
+              "a channel track (ex4_construct/ex4_hyps: one note; ex5_run/ex5_construct/ex5_hyps: `A [c]2 *100` with a subroutine — the well-founded writer unfolded one runWriter iteration per "
+              "rewrite by the equation lemmas of Proofs/MdsFragEx, states unified by rfl).")
+LEVEL_NOTE = ("Hypothesis PlatformClean: no platform `cmd` injects a raw PAT/INS/PCM/PEG/MTAB opcode (the song names nothing for such an operand). Residual hypotheses of C09_full_partial2: platformFrag (the events a "
+              "raw platform `cmd` injects are okEv, no terminators, no LP/LPF — the fragment itself is proved), every stream < 64 KiB (then the exported seq consists of bytes: C09_seq_bytes), sorted "
+              "track map, at least one channel track (Spec/MdsFrag.fullHyps, sound by fullHyps_sound), input sizes below 4 GiB - 64 in total (exportSmall) — all EVALUATED by the judge on the model's "
+              "export of every accepted generated song together with fragB (a list outside Frag would now contradict a theorem): see the note 'C09_full_partial2 residual hypotheses' of each run; "
+              "macro streams resolve when non-empty. Still decided per case by checkFile on the real file only "
               "(C09_full_statement): the comparison of the decoded operands with the SONG's events (namedOf/matchAll/visit work list: which id each operand must name is proved per hook call, "
               "C09_event_names, not along the player's traversal), drum-note operands (that a note decoded in drum mode is a routine index), the expected entry CONTENTS against the C11 encoder, "
               "contiguity of streams, pcm bounds. Byte-level nothing_unused: entries referenced only from a macro-track list (convert_macro_track drops index operands), by a zero-length drum note or "
@@ -428,8 +436,8 @@ def cases(rng, tier):
 
 
 def judge_notes(cases, impl, judge):
-    """hypothesis coverage of C09_full_partial: the judge evaluates Spec/MdsFrag.fullPartialHyps on the model's export of
-    every accepted song it judged ok"""
+    """hypothesis coverage of C09_full_partial2: the judge evaluates Spec/MdsFrag.fullHyps, exportSmall and fragB on the
+    model's export of every accepted song it judged ok"""
     hist = {}
     for j in judge:
         if j.startswith("ok H="):
@@ -438,7 +446,7 @@ def judge_notes(cases, impl, judge):
     if not hist:
         return []
     tot = sum(hist.values())
-    return ["C09_full_partial residual hypotheses (fullPartialHyps) on the %d accepted songs judged ok: %s"
+    return ["C09_full_partial2 residual hypotheses (fullHyps, exportSmall; fragB re-evaluated) on the %d accepted songs judged ok: %s"
             % (tot, ", ".join("%s x%d" % kv for kv in sorted(hist.items())))]
 
 
